@@ -282,6 +282,9 @@ pub struct FrontendCtx<'a, R: FileManager> {
     pub counter: usize,
 
     pub type_application_stack: Vec<(String, Runtype)>,
+    // module items being resolved through imports / re-exports (a circle of re-exports must not recurse for ever)
+    resolving_types: BTreeSet<ModuleItemAddress>,
+    resolving_values: BTreeSet<ModuleItemAddress>,
     jsdoc_cache_by_file: BTreeMap<BffFileName, JsdocFileCache>,
 }
 
@@ -462,6 +465,23 @@ trait TypeModuleWalker<'a, R: FileManager + 'a, U> {
     }
 
     fn get_addressed_item(&mut self, addr: &ModuleItemAddress, err_anchor: &Anchor) -> Res<U> {
+        // `export { X } from "./b"` in a.ts and `export { X } from "./a"` in b.ts: the name is never declared
+        if !self.get_ctx().resolving_types.insert(addr.clone()) {
+            return Err(self.get_ctx().box_error(
+                err_anchor,
+                DiagnosticInfoMessage::CannotNotResolveType(addr.clone()),
+            ));
+        }
+        let res = self.get_addressed_item_unguarded(addr, err_anchor);
+        self.get_ctx().resolving_types.remove(addr);
+        res
+    }
+
+    fn get_addressed_item_unguarded(
+        &mut self,
+        addr: &ModuleItemAddress,
+        err_anchor: &Anchor,
+    ) -> Res<U> {
         let parsed_module = self.get_ctx().get_or_fetch_file(&addr.file, err_anchor)?;
         match addr.visibility {
             Visibility::Local => {
@@ -839,6 +859,19 @@ trait ValueModuleWalker<'a, R: FileManager + 'a, U> {
         }
     }
     fn get_addressed_item(&mut self, addr: &ModuleItemAddress, anchor: &Anchor) -> Res<U> {
+        // a value re-exported in a circle between files is never declared
+        if !self.get_ctx().resolving_values.insert(addr.clone()) {
+            return Err(self.get_ctx().box_error(
+                anchor,
+                DiagnosticInfoMessage::CannotNotResolveValue(addr.clone()),
+            ));
+        }
+        let res = self.get_addressed_item_unguarded(addr, anchor);
+        self.get_ctx().resolving_values.remove(addr);
+        res
+    }
+
+    fn get_addressed_item_unguarded(&mut self, addr: &ModuleItemAddress, anchor: &Anchor) -> Res<U> {
         let parsed_module = self.get_ctx().get_or_fetch_file(&addr.file, anchor)?;
         match addr.visibility {
             Visibility::Local => {
@@ -1100,6 +1133,8 @@ impl<'a, R: FileManager> FrontendCtx<'a, R> {
 
             type_application_stack: vec![],
             recursive_generic_uuids: BTreeSet::new(),
+            resolving_types: BTreeSet::new(),
+            resolving_values: BTreeSet::new(),
             jsdoc_cache_by_file: BTreeMap::new(),
         }
     }
